@@ -54,6 +54,14 @@ Theorem C13_size_bound_partial : forall p, in_bounds p ->
 Proof. exact size_bound. Qed.
 Print Assumptions C13_size_bound_partial.
 
+(* the exact size of an Actor payload (any number of segments below 256, any names): the limit of
+   1024 bytes holds exactly when 3 + |name| + sum (26 + |segment name|) <= 1024 *)
+Theorem C13_actor_size_exact : forall n segs,
+  Forall (fun s => length (snd s) = 6%nat) segs -> (length segs < 256)%nat ->
+  lenb (enc_payload (PActor n segs)) = 3 + lenb n + fold_right (fun s acc => seg_cost s + acc) 0 segs.
+Proof. exact actor_size_exact. Qed.
+Print Assumptions C13_actor_size_exact.
+
 Theorem C13_actor_size_refuted : pwf big_actor /\ in_bounds big_actor /\ lenb (enc_payload big_actor) = 1101.
 Proof. exact actor_size_refuted. Qed.
 Print Assumptions C13_actor_size_refuted.
